@@ -73,8 +73,8 @@ structure AcceptedDo (pre : Predef) (n : Node J V) (spec : Spec) (data : Option 
 
 inductive Verdict (V : Type)
   | refuse (cls : ErrCls)
-  | admit (m attr : String) (hasWrite : Bool) (v w : V)     -- a change
-  | admitDo (m attr : String) (arg : Option V)              -- a command
+  | allow (m attr : String) (hasWrite : Bool) (v w : V)     -- a change
+  | allowDo (m attr : String) (arg : Option V)              -- a command
   deriving DecidableEq, Repr
 
 def modulesNamed (n : Node J V) (m : String) : List (Module J V) := n.filter (fun x => x.name == m)
@@ -124,7 +124,7 @@ def changeVerdict (pre : Predef) (env : Env V) (n : Node J V) (spec : Spec) (j :
             | .ok w =>
               match chainVerdict env mod p.attr v p.checks with
               | some c => .refuse c
-              | none => .admit mod.name p.attr p.hasWrite v w
+              | none => .allow mod.name p.attr p.hasWrite v w
 
 def doVerdict (pre : Predef) (n : Node J V) (spec : Spec) (data : Option J) : Verdict V :=
   match targetDo spec with
@@ -139,11 +139,11 @@ def doVerdict (pre : Predef) (n : Node J V) (spec : Spec) (data : Option J) : Ve
         match c.arg, data with
         | some _, none => .refuse .wrongType
         | none, some _ => .refuse .wrongType
-        | none, none => .admitDo mod.name c.attr none
+        | none, none => .allowDo mod.name c.attr none
         | some ops, some j =>
           match ops.accept j with
           | .error e => .refuse e.cls
-          | .ok v => .admitDo mod.name c.attr (some v)
+          | .ok v => .allowDo mod.name c.attr (some v)
 
 /-! ## what a recorded exchange must look like -/
 
@@ -163,8 +163,8 @@ a `write_` method has no driver to call). -/
 def ExchangeOK (vd : Verdict V) (o : Obs J V) : Prop :=
   match vd with
   | .refuse cls => o.calls = [] ∧ o.emits = [] ∧ o.cacheAfter = o.cacheBefore ∧ o.reply = .error cls
-  | .admit m attr hasWrite _ w => o.calls = (if hasWrite then [DriverCall.write m attr w] else [])
-  | .admitDo m attr arg => o.calls = [DriverCall.cmd m attr arg] ∧ o.cacheAfter = o.cacheBefore
+  | .allow m attr hasWrite _ w => o.calls = (if hasWrite then [DriverCall.write m attr w] else [])
+  | .allowDo m attr arg => o.calls = [DriverCall.cmd m attr arg] ∧ o.cacheAfter = o.cacheBefore
 
 instance [DecidableEq J] [DecidableEq V] (vd : Verdict V) (o : Obs J V) : Decidable (ExchangeOK vd o) := by
   unfold ExchangeOK; split <;> infer_instance
